@@ -117,6 +117,95 @@ theorem inherited_fragments_have_a_class (env : Env) (fuel : Nat) (d : Definitio
       b = "BaseModel" ∨ (∃ n ∈ out.st.mixins, b = pascal n) ∨ (∃ p ∈ out.st.mixinImports, b = p.2)) :=
   generate_spec env fuel d marks out h
 
+/-! ## 1b. The decision looks at the fragment's own top-level selections only
+
+  "a named fragment that has no inline fragments": `_unpack_fragment` inspects the selections written directly in the
+  fragment definition.  What the fragment SPREADS (other named fragments, which may contain inline fragments at any
+  depth — "carriers") plays no part: a fragment that merely re-uses a carrier stays a base class, the carrier is
+  unpacked into it.  (A change that lets the decision follow spreads, e.g. by re-using
+  `get_inline_fragments_from_selection_set`, contradicts every theorem of this section.) -/
+
+/-- is this selection an inline fragment? -/
+def isInlineSel : Selection → Bool
+  | .inline .. => true
+  | _ => false
+
+theorem unpackFragment_eq (env : Env) (f : Fragment) (root : Option String) :
+    unpackFragment env f root =
+      ((env.schema.kindOf? f.on == some .union) || (match root with | some r => f.on != r | none => false)
+        || f.sel.any isInlineSel) := by
+  unfold unpackFragment
+  congr 1
+
+/-- (must) **the unpack decision is a function of the fragment's type condition, the kind of that type, the root type
+    and the KINDS of the fragment's top-level selections** — for every two fragment tables (whatever the spread
+    fragments contain, wherever they are defined) and every two fragments that agree on those. -/
+theorem unpack_decision_top_level_only (env env' : Env) (f f' : Fragment) (root : Option String)
+    (hs : env.schema = env'.schema) (hon : f.on = f'.on)
+    (hk : f.sel.map isInlineSel = f'.sel.map isInlineSel) :
+    unpackFragment env f root = unpackFragment env' f' root := by
+  rw [unpackFragment_eq, unpackFragment_eq, hs, hon]
+  have h : ∀ l : List Selection, l.any isInlineSel = (l.map isInlineSel).any id := by
+    intro l
+    induction l with
+    | nil => rfl
+    | cons a l ih => rw [List.map_cons, List.any_cons, List.any_cons, ih]; rfl
+  rw [h f.sel, h f'.sel, hk]
+
+/-- in particular the fragment table is irrelevant: replacing the definitions of the fragments a fragment spreads
+    (by ones with inline fragments, say) never changes whether it is unpacked -/
+theorem unpack_ignores_fragment_table (schema : Schema) (frags frags' : List Fragment) (f : Fragment) (root : Option String) :
+    unpackFragment { schema := schema, frags := frags } f root = unpackFragment { schema := schema, frags := frags' } f root :=
+  unpack_decision_top_level_only _ _ f f root rfl rfl rfl
+
+/-- (must) a defined fragment on a non-union type whose top-level selections are fields and spreads — of ANY
+    fragments — qualifies as a base class for its own type -/
+theorem qualifies_whatever_it_spreads (env : Env) (f : Fragment)
+    (hdef : findFragment? env.frags f.name = some f)
+    (hnu : (env.schema.kindOf? f.on == some .union) = false)
+    (htop : ∀ s ∈ f.sel, (∃ a n d i sub, s = .field a n d i sub) ∨ (∃ n d, s = .spread n d)) :
+    Qualifies env f f.on := by
+  refine ⟨hdef, rfl, hnu, ?_⟩
+  rw [List.any_eq_false]
+  intro s hs
+  rcases htop s hs with ⟨a, n, d, i, sub, rfl⟩ | ⟨n, d, rfl⟩ <;> simp
+
+/-- (must) **a base that spreads a carrier stays a base**: `f` (fields and spreads at its top level, defined on the
+    non-union type `T`) spreads `g`, and `g` contains inline fragments; a class generated for a selection set that is
+    evaluated for `T` and directly spreads `f` still has `pascal f` among its bases, hence is a subclass of it. -/
+theorem base_spreading_a_carrier_stays_a_base (env : Env) (fuel : Nat) (cn T : String) (sid : Nat) (sel : List Selection)
+    (a : Bool) (eb tv : List String) (st : St) (cs : List ClassDecl) (st' : St)
+    (f g : Fragment) (dirs gdirs : List Directive)
+    (hdef : findFragment? env.frags f.name = some f) (hon : f.on = T)
+    (hnu : (env.schema.kindOf? f.on == some .union) = false)
+    (htop : ∀ s ∈ f.sel, (∃ a n d i sub, s = .field a n d i sub) ∨ (∃ n d, s = .spread n d))
+    (hspreads : Selection.spread g.name gdirs ∈ f.sel) (hcarrier : g.sel.any isInlineSel = true)
+    (hmem : Selection.spread f.name dirs ∈ sel)
+    (hfresh : st.publicNames.contains cn = false)
+    (h : parseTypeDefinition env fuel cn T sid sel a eb tv st = .ok (cs, st')) :
+    ∃ c rest, cs = c :: rest ∧ c.name = cn ∧ pascal f.name ∈ c.bases ∧
+      ∀ t : ClassTable, basesOf t cn = some c.bases → IsSubclass t cn (pascal f.name) :=
+  mixin_criterion env fuel cn T sid sel a eb tv st cs st' f dirs
+    (hon ▸ qualifies_whatever_it_spreads env f hdef hnu htop) hmem hfresh h
+
+/-- (must) **a carrier is unpacked whatever the root type** (also when it is defined on exactly that type) … -/
+theorem carrier_always_unpacked (env : Env) (g : Fragment) (root : Option String) (hc : g.sel.any isInlineSel = true) :
+    unpackFragment env g root = true := by
+  rw [unpackFragment_eq, hc, Bool.or_true]
+
+/-- … so no generator ever inherits from it: a defined fragment with an inline fragment among its top-level
+    selections is never recorded in `_fragments_used_as_mixins`, and its class name is no fragment base -/
+theorem carrier_never_inherited (env : Env) (fuel : Nat) (d : Definition) (marks : List Nat) (out : ModuleOut)
+    (g : Fragment) (hdef : findFragment? env.frags g.name = some g) (hc : g.sel.any isInlineSel = true)
+    (h : generate env fuel d marks = .ok out) : g.name ∉ out.st.mixins := by
+  intro hm
+  obtain ⟨f, hf, hu⟩ := (inherited_fragments_have_a_class env fuel d marks out h).1 g.name hm
+  rw [hdef] at hf
+  injection hf with hf
+  subst hf
+  rw [carrier_always_unpacked env g none hc] at hu
+  cases hu
+
 /-! ## 2. Fragment classes are defined before their dependants -/
 
 /-- the dependency dict has no cycle.  GraphQL validation (NoFragmentCycles, run by `get_graphql_queries`) rejects
@@ -595,5 +684,44 @@ example : Acyclic [("AF", []), ("DF", [])] := ⟨fun _ => 0, by
   · split at hl
     · cases hl; cases hm
     · cases hl⟩
+
+/-! ### a base that spreads a carrier (regression witness corpus/C08/C08-R1-base-spreads-inline-carrier.json) -/
+
+def tNode : TypeDef := { name := "Node", kind := .interface, fields := [FieldDef.mk "id" (.named "ID") []] }
+def tUserN : TypeDef := { name := "User", kind := .object, interfaces := ["Node"], fields := [FieldDef.mk "id" (.named "ID") [], FieldDef.mk "name" (.named "String") [], FieldDef.mk "email" (.named "String") []] }
+def tTeam : TypeDef := { name := "Team", kind := .object, interfaces := ["Node"], fields := [FieldDef.mk "id" (.named "ID") [], FieldDef.mk "title" (.named "String") []] }
+def tQueryN : TypeDef := { name := "Query", kind := .object, fields := [FieldDef.mk "user" (.named "User") [], FieldDef.mk "node" (.named "Node") []] }
+/-- `fragment NodeInfo on Node { id ... on User { name } ... on Team { title } }` — a carrier -/
+def rNodeInfo : Fragment := { name := "NodeInfo", on := "Node", sid := 5, sel := [.field none "id" [] 0 [], .inline (some "User") [] 6 [.field none "name" [] 0 []], .inline (some "Team") [] 7 [.field none "title" [] 0 []]] }
+/-- `fragment UserCard on User { ...NodeInfo email }` — no inline fragment of its own -/
+def rUserCard : Fragment := { name := "UserCard", on := "User", sid := 8, sel := [.spread "NodeInfo" [], .field none "email" [] 0 []] }
+def rEnv : Env := { schema := { types := [tNode, tUserN, tTeam, tQueryN], query := some "Query" }, frags := [rUserCard, rNodeInfo] }
+/-- `query GetUser { user { ...UserCard } }` -/
+def rGetUser : Operation := { kind := .query, name := some "GetUser", sid := 1, sel := [.field none "user" [] 2 [.spread "UserCard" []]] }
+/-- `query GetNode { node { ...NodeInfo } }` -/
+def rGetNode : Operation := { kind := .query, name := some "GetNode", sid := 3, sel := [.field none "node" [] 4 [.spread "NodeInfo" []]] }
+
+example : Qualifies rEnv rUserCard "User" :=
+  qualifies_whatever_it_spreads rEnv rUserCard (by rfl) (by decide) (by
+    intro s hs
+    simp only [rUserCard, List.mem_cons, List.not_mem_nil, or_false] at hs
+    rcases hs with rfl | rfl
+    · exact Or.inr ⟨_, _, rfl⟩
+    · exact Or.inl ⟨_, _, _, _, _, rfl⟩)
+example : rNodeInfo.sel.any isInlineSel = true := by decide
+example : unpackFragment rEnv rUserCard (some "User") = false ∧ unpackFragment rEnv rNodeInfo (some "Node") = true := by decide
+
+/-- on the witness: `UserCard` has its class in the fragments module, `GetUserUser(UserCard)` inherits from it, only the
+    carrier `NodeInfo` is unpacked, and the package lies outside every finding trigger -/
+example : (match fragmentsModule id rEnv 10 [rGetUser, rGetNode] with
+    | .ok out => (match out.fragments with
+          | some fo => (fo.classes.map (·.name)).contains "UserCard"
+          | none => false)
+        && out.excluded.contains "NodeInfo" && !out.excluded.contains "UserCard"
+        && out.ops.any (fun g => g.out.classes.any fun c => c.name == "GetUserUser" && c.bases == ["UserCard"])
+    | .error _ => false) = true := by decide
+
+example : trigUnpackedAndInherited id rEnv 10 [rGetUser, rGetNode] = false ∧ trigMroConflict id rEnv 10 [rGetUser, rGetNode] = false
+    ∧ trigSiblingUnpacks id rEnv 10 [rGetUser, rGetNode] = false := by decide
 
 end Ariadne.C08
